@@ -557,6 +557,23 @@ def region_of_hard_error(res, meta, gen_name):
     return None
 
 
+def error_in_contract_text(res, meta, gen_name):
+    """the first rustc error points into a requires/ensures clause (the contract itself no longer
+    type-checks), not into the function body"""
+    for d in res['diags']:
+        if d.get('level') != 'error' or not d.get('code'):
+            continue
+        for sp in d.get('spans', []):
+            if not sp.get('file_name', '').endswith(gen_name):
+                continue
+            ln = sp['line_start']
+            for o in meta['obls'] + meta['pres']:
+                if o['start'] <= ln <= (o['end'] or o['start']):
+                    return True
+        return False
+    return False
+
+
 def full_run(flavour, cfg, files, units, rlimit=40, seed=0):
     """extract + verify, retrying (a) with Verus' own suggested weak std specs, (b) with the
     loop/closure/hint annotations of a unit dropped when the woven text no longer type-checks
@@ -585,11 +602,12 @@ def full_run(flavour, cfg, files, units, rlimit=40, seed=0):
         if cand:
             bare.add(cand[0])
             continue
-        # (d) even the bare signature contract does not type-check against the function as it is
-        # now (e.g. its return type changed): the unit is DEMOTED - its contract is dropped, the
+        # (d) the signature contract of a PRIVATE function no longer type-checks against it (e.g. its
+        # return type changed; the error points into a requires/ensures clause): the unit is DEMOTED - its contract is dropped, the
         # function is treated like a helper without contract (rule I1 may write it out at its call
         # sites) and what its callers' contracts need is decided there
-        if uid in unit_ids and uid not in demoted:
+        private = {x for fo in ext['files'].values() for x in fo.get('private_units', [])}
+        if uid in unit_ids and uid not in demoted and uid in private and error_in_contract_text(res, meta, os.path.basename(gen)):
             demoted.add(uid)
             continue
         break
